@@ -5,7 +5,11 @@ MODULE = "StorageModel.Properties.C08"
 THEOREMS = ["table_is_expected", "delivery_is_expected", "events_exactly_once", "events_count",
             "constraint_posts_exactly_once", "events_final_state_create", "events_final_state_update",
             "events_last_state_delete", "child_change_parent_event", "plain_parent_no_child_event",
-            "rolled_back_no_events", "rejected_op_tx_fails", "commit_actions_once", "commit_actions_once_tx_context", "batch_runs_tx_complete"]
+            "rolled_back_no_events", "rejected_op_tx_fails", "commit_actions_once", "commit_actions_once_tx_context", "batch_runs_tx_complete",
+            # batch groups (several Db.Batch calls coalesced by bbolt into one batch), every schedule
+            "batch_group_committed_once", "batch_group_all_return", "batch_group_events_exactly_once",
+            "batch_group_constraint_posts_once", "batch_group_tx_complete_once", "batch_group_tx_complete_per_member",
+            "batch_group_rolled_back_no_events", "batch_group_committed_is_accepted", "batch_group_single_is_batch"]
 
 TABLE_OBLIGATIONS = [
     "table_is_expected (Generated/CrudReturns.lean, regenerated from boltz/store_crud.go and boltz/store.go)",
@@ -17,7 +21,8 @@ def nontrivial(case, impl):
     # non-trivial: some committed transaction delivered at least one listener / constraint callback
     for rec in impl.split(" | "):
         f = flow.tx_fields(rec)
-        if f.get("r") == "ok" and (f.get("sync", "[]") != "[]" or f.get("async", "[]") != "[]"):
+        # (a batch group reports one result per member call: ok+err:…)
+        if "ok" in f.get("r", "").split("+") and (f.get("sync", "[]") != "[]" or f.get("async", "[]") != "[]"):
             return case
     return None
 
@@ -35,7 +40,12 @@ RULE = ("(a) registration matrix: each of AddEntityEventListener / AddEntityEven
         "carrying a RecordNotFoundError) x Update / Batch; (c) sampled faulty bodies of 2-5 operations; "
         "(d) random histories of 1-4 transactions with up to 5 registrations per store (listeners with 1-3 random "
         "types, constraints vetoing up to 2 random changes), reused contexts, commit / pre-commit actions, nested "
-        "Update calls, swallowed vetoes. Non-trivial = a committed transaction delivered at least one callback; "
+        "Update calls, swallowed vetoes; (e) batch groups: 2-4 Db.Batch calls coalesced by bbolt into one batch "
+        "(MaxBatchSize = group size, MaxBatchDelay = 1 h, arrival order = member order), every member position x a fault on "
+        "its 1st / 2nd / 3rd invocation (before, inside, after its work), members that fail always (caller error, "
+        "pre-commit action, natural rejection) / once (fail1) / never, members working on the same entity, a MutateContext "
+        "reused across a failed Update, the group and a later Update, and random histories mixing groups (random bodies, "
+        "random faults) with the other transaction modes. Non-trivial = a committed transaction delivered at least one callback; "
         "distinct = distinct case line")
 
 
@@ -46,6 +56,8 @@ def run(ctx, replay_cases=None):
         "a listener callback cannot see which of its registered change types fired; deliveries are compared as (listener, rendered entity)",
         "commit actions belong to the MutateContext: a context used for a second transaction runs the actions registered during the first one again (reproduced, stated per context-and-transaction)",
         "child data may be created over an existing plain parent entity (legal since fix 8269ce9); custom index-stage constraints (boltz.Constraint via AddConstraint) only log and veto",
+        "bbolt's DB.Batch (queueing, one shared transaction per round in arrival order, rollback + trySolo for the failing call, swap-removal from the batch, re-run of the rest) is modelled literally from go.etcd.io/bbolt db.go, not verified; which of {solo re-run, next round} gets the writer lock first is a scheduling fact: the order of the group's bbolt transactions is observed in the implementation's run (seq=) and handed to model and spec as the schedule (theorems hold for every schedule)",
+        "'once per committed transaction' for a batch group is read per committed Db.Batch call (the tx-complete listener is handed that call's MutateContext): a shared bbolt transaction that commits with m members runs every tx-complete listener m times, once per member context (per-member closure registration in DbImpl.Batch)",
     ]
     return flow.run_flow(ctx, "c08", MODULE, THEOREMS, MATCHERS, nontrivial, RULE,
                          table_obligations=TABLE_OBLIGATIONS, replay_cases=replay_cases)
